@@ -30,7 +30,7 @@ import (
 func sharedProgram(r *rand.Rand) (c Case, tags []string) {
 	bits := r.Intn(64)
 	k := 1 + r.Intn(4)
-	total := []int{3000, 6000, 12000, 20000, 20000, 28000}[r.Intn(6)]
+	total := []int{6000, 12000, 20000, 20000, 28000, 40000}[r.Intn(6)]
 	var b strings.Builder
 	failing := []string{
 		"fail(\"boom\", n)", "n // 0", "[][n]", "{}[\"a-missing-key-of-some-length\"]", "None.x", "\"abc\".xstrip()", "int(\"not a number\")",
@@ -126,8 +126,9 @@ type spinBarrier struct {
 func (b *spinBarrier) wait() {
 	b.arrived.Add(1)
 	for i := 0; b.arrived.Load() < b.n; i++ {
-		if i&0xfffff == 0xfffff {
-			runtime.Gosched() // oversubscribed machine: let a descheduled participant arrive
+		if i > 200000 {
+			// oversubscribed machine: a participant has lost its CPU; stop burning ours while it arrives
+			time.Sleep(50 * time.Microsecond)
 		}
 	}
 }
@@ -178,7 +179,7 @@ func runShared(c *driver.Ctx, r *rand.Rand, trials int) {
 		ran++
 		var prog *starlark.Program
 		origin := "shared-compiled"
-		if trial%8 == 0 {
+		if trial%16 == 0 {
 			origin = "shared-source"
 			prog, err = compileShared(&cs)
 		} else {
